@@ -17,6 +17,7 @@ type Term struct {
 	zextOf     *Term // this = zero_extend(zextOf)
 	exOf       *Term // this = extract[exHi:exLo](exOf)
 	exHi, exLo int
+	topZeroFrom int // >0: on the current path all bits at positions >= topZeroFrom are known to be zero
 }
 
 var bigOne = big.NewInt(1)
